@@ -279,3 +279,26 @@ Section ValuesProofs.
   Qed.
 End ValuesProofs.
 Unset Default Proof Using.
+
+(* ------------------------------------------------------------------ *)
+(* D. from "within eps before rounding" to "within 1 LSB in the file"  *)
+(* ------------------------------------------------------------------ *)
+(* values in units of 1/D LSB; np.rint = round half to even of u/D *)
+Lemma rhe_spec a b : 0 < b -> 2 * Z.abs (b * round_half_even_div a b - a) <= b.
+Proof.
+  intros Hb. unfold round_half_even_div.
+  pose proof (Z.div_mod a b ltac:(lia)) as Hdm. pose proof (Z.mod_pos_bound a b Hb) as Hr.
+  destruct (2 * (a mod b) <? b) eqn:E1; [lia|].
+  destruct (b <? 2 * (a mod b)) eqn:E2; [lia|].
+  destruct (Z.even (a / b)); lia.
+Qed.
+
+Lemma rounding_one_lsb D u v e : 0 < D -> 0 <= e < D -> Z.abs (u - v) <= e ->
+  2 * Z.abs (D * round_half_even_div u D - v) <= D + 2 * e /\
+  Z.abs (round_half_even_div u D - round_half_even_div v D) <= 1.
+Proof.
+  intros HD He Huv. pose proof (rhe_spec u D HD) as Hu. pose proof (rhe_spec v D HD) as Hv.
+  split; [lia|].
+  set (ru := round_half_even_div u D) in *. set (rv := round_half_even_div v D) in *.
+  assert (D * Z.abs (ru - rv) < 2 * D) by lia. nia.
+Qed.
